@@ -10,6 +10,7 @@ import (
 	"time"
 
 	erpc "github.com/henrylee2cn/erpc/v6"
+	"github.com/henrylee2cn/erpc/v6/plugin/secure"
 	"pgregory.net/rapid"
 
 	"verifharness/vt"
@@ -103,16 +104,17 @@ func (d *dialRecorder) PostDial(s erpc.PreSession, isRedial bool) *erpc.Status {
 
 type c13Case struct {
 	Budget  int32 // redial attempts: 1, 3 or -1 (unlimited)
+	Secure  bool  // both peers run the secure plugin and every message is marked secure
 	SetID   bool
 	Actions []string // kill-idle | kill-during-call | calls | outage-short | outage-exhaust
 	Callers int
 }
 
 func genC13(t *rapid.T) c13Case {
-	c := c13Case{Budget: rapid.SampledFrom([]int32{1, 3, -1}).Draw(t, "budget"), SetID: rapid.Bool().Draw(t, "setid"), Callers: rapid.IntRange(1, 4).Draw(t, "callers")}
+	c := c13Case{Budget: rapid.SampledFrom([]int32{1, 3, -1}).Draw(t, "budget"), SetID: rapid.Bool().Draw(t, "setid"), Callers: rapid.IntRange(1, 4).Draw(t, "callers"), Secure: rapid.IntRange(0, 2).Draw(t, "secure") == 0}
 	n := rapid.IntRange(1, 5).Draw(t, "nactions")
 	for i := 0; i < n; i++ {
-		a := rapid.SampledFrom([]string{"kill-idle", "kill-idle", "kill-during-call", "calls", "outage-short", "outage-exhaust"}).Draw(t, "action")
+		a := rapid.SampledFrom([]string{"kill-idle", "kill-idle", "kill-during-call", "calls", "outage-short", "outage-exhaust", "traffic-during-outage", "traffic-during-outage"}).Draw(t, "action")
 		c.Actions = append(c.Actions, a)
 		if a == "outage-exhaust" && c.Budget > 0 {
 			break // the session ends there
@@ -136,15 +138,23 @@ func runC13(c c13Case) []string {
 	lib := newLib()
 	w := vt.NewWorld()
 	defer w.Close()
-	srv := w.Peer(erpc.PeerConfig{})
-	route, _ := registerLib(srv)
+	var srvPlugins, cliPlugins []erpc.Plugin
+	var secureSetting []erpc.MessageSetting
+	if c.Secure {
+		key := strings.Repeat("k", 16)
+		srvPlugins = append(srvPlugins, secure.NewPlugin(9100, key))
+		cliPlugins = append(cliPlugins, secure.NewPlugin(9100, key))
+		secureSetting = []erpc.MessageSetting{secure.WithSecureMeta()}
+	}
+	srv := w.Peer(erpc.PeerConfig{}, srvPlugins...)
+	route, pushRoute := registerLib(srv)
 	ts := &tcpServer{peer: srv}
 	if err := ts.listen(); err != nil {
 		return []string{"SKIP: no loopback listener: " + err.Error()}
 	}
 	defer ts.down()
 	rec := &dialRecorder{}
-	cli := w.Peer(erpc.PeerConfig{RedialTimes: c.Budget, RedialInterval: c13Interval, DialTimeout: 2 * time.Second}, rec)
+	cli := w.Peer(erpc.PeerConfig{RedialTimes: c.Budget, RedialInterval: c13Interval, DialTimeout: 2 * time.Second}, append(cliPlugins, rec)...)
 	sess, stat := cli.Dial(ts.addr)
 	if !stat.OK() {
 		return []string{"initial dial failed: " + stat.String()}
@@ -161,7 +171,7 @@ func runC13(c c13Case) []string {
 		ncall++
 		rid := fmt.Sprintf("ok%d", ncall)
 		res := new(LibRes)
-		cmd := sess.AsyncCall(route, &LibArg{Rid: rid, Act: "ret", Val: rid}, res, make(chan erpc.CallCmd, 1))
+		cmd := sess.AsyncCall(route, &LibArg{Rid: rid, Act: "ret", Val: rid}, res, make(chan erpc.CallCmd, 1), secureSetting...)
 		if !vt.WaitClosed(cmd.Done()) {
 			failf("%s", vt.Hang("completion of a call "+when))
 			return
@@ -207,6 +217,82 @@ func runC13(c c13Case) []string {
 				go func() { defer wg.Done(); okCallLocked(sess, route, &fails, &ncall) }()
 			}
 			wg.Wait()
+		case "traffic-during-outage":
+			// calls and pushes issued while the server is away; it comes back while they are
+			// being (re)sent. Whatever completes OK must carry the genuine data.
+			if c.Budget > 0 {
+				continue // a finite budget may legitimately be exhausted here: covered by outage-exhaust
+			}
+			ts.down()
+			// wait until the client has noticed the loss: from then on every call and push takes
+			// the redial path, and since the server comes back for good they must succeed
+			noticed := vt.WaitUntilFor(2*time.Second, func() bool { return !sess.Health() })
+			type pc struct {
+				cmd erpc.CallCmd
+				res *LibRes
+				rid string
+			}
+			var pcs []pc
+			var pushRids []string
+			var mu sync.Mutex
+			var wg sync.WaitGroup
+			for g := 0; g < c.Callers; g++ {
+				wg.Add(1)
+				go func(g int) {
+					defer wg.Done()
+					rid := fmt.Sprintf("out%d-%d", ai, g)
+					res := new(LibRes)
+					cmd := sess.AsyncCall(route, &LibArg{Rid: rid, Act: "ret", Val: rid}, res, make(chan erpc.CallCmd, 1), secureSetting...)
+					mu.Lock()
+					pcs = append(pcs, pc{cmd, res, rid})
+					mu.Unlock()
+				}(g)
+				// pushes from their own goroutines, so that they too are issued while the session redials
+				wg.Add(1)
+				go func(g int) {
+					defer wg.Done()
+					prid := fmt.Sprintf("pout%d-%d", ai, g)
+					sess.Push(pushRoute, &LibArg{Rid: prid, Act: "ret", Val: prid}, secureSetting...)
+					mu.Lock()
+					pushRids = append(pushRids, prid)
+					mu.Unlock()
+				}(g)
+			}
+			time.Sleep(c13Interval)
+			if err := ts.listen(); err != nil {
+				failf("harness: cannot re-listen: %v", err)
+				break
+			}
+			wg.Wait()
+			for _, p := range pcs {
+				if !vt.WaitClosed(p.cmd.Done()) {
+					failf("%s", vt.Hang("completion of a call issued while the server was away"))
+					break
+				}
+				if p.cmd.StatusOK() {
+					if p.res.Val != p.rid {
+						failf("a call issued while the server was away completed OK with result %+v, the handler must have seen Val=%q", *p.res, p.rid)
+					}
+				} else if noticed && lib.Calls(p.rid) == 1 {
+					failf("a call issued while the session was redialing (unlimited budget) was re-sent and handled once the server was back, no further loss happened, yet it completed with %v", p.cmd.Status())
+				} else if !isConnErr(p.cmd.Status()) {
+					failf("a call issued while the server was away completed with %v, want OK or a connection error", p.cmd.Status())
+				}
+			}
+			if stabilised(before, fmt.Sprintf("action %d: traffic during an outage", ai)) {
+				checkIdentity("after traffic during an outage")
+				okCall("after traffic during an outage")
+			}
+			// pushes: delivered intact at most once, or not at all - never as an empty / foreign argument
+			time.Sleep(300 * time.Microsecond)
+			for _, prid := range pushRids {
+				if n := lib.Pushes(prid); n > 1 {
+					failf("push %s issued while the server was away was handled %d times", prid, n)
+				}
+			}
+			if n := lib.Pushes(""); n > 0 {
+				failf("%d push(es) issued while the server was away reached the handler with an empty argument (secure=%v)", n, c.Secure)
+			}
 		case "kill-idle":
 			ts.kill()
 			if stabilised(before, fmt.Sprintf("action %d: connection killed while idle", ai)) {
@@ -363,7 +449,7 @@ func okCallLocked(sess erpc.Session, route string, fails *[]string, n *int) {
 	}
 }
 
-const ruleC13 = "a client session created by Dial over loopback TCP with redial budget 1 / 3 / unlimited (interval 3 ms), optionally with a user-assigned id, against a harness-owned listener that can kill all connections and refuse new ones; 1-5 generated fault actions: connection killed while idle, killed while a call awaits its (gated) reply, short outage, outage that exhausts the budget (or a long outage with unlimited budget), bursts of concurrent calls; oracle: calls in flight at the loss complete with a connection-class status or their genuine reply (never hang); after the session re-established (redial hook ran again, Health) calls succeed on the same Session value, the user-assigned id is kept and indexed; after exhaustion the close notification fires, the index forgets the session, the pending call and a later call fail with a connection error; unlimited budget survives a long outage; non-trivial = a loss during a call, >=2 losses or exhaustion; distinct by case"
+const ruleC13 = "a client session created by Dial over loopback TCP with redial budget 1 / 3 / unlimited (interval 3 ms), optionally with a user-assigned id and optionally with the secure plugin on both peers (every message marked secure), against a harness-owned listener that can kill all connections and refuse new ones; 1-5 generated fault actions: connection killed while idle, killed while a call awaits its (gated) reply, calls and pushes issued while the server is away (unlimited budget), short outage, outage that exhausts the budget (or a long outage with unlimited budget), bursts of concurrent calls; oracle: calls in flight at the loss complete with a connection-class status or their genuine reply (never hang); after the session re-established (redial hook ran again, Health) calls succeed on the same Session value, the user-assigned id is kept and indexed; after exhaustion the close notification fires, the index forgets the session, the pending call and a later call fail with a connection error; unlimited budget survives a long outage; non-trivial = a loss during a call, >=2 losses or exhaustion; distinct by case"
 
 func TestC13Redial(t *testing.T) {
 	rec := vt.NewRec(t, "C13", "redial", ruleC13)
